@@ -240,6 +240,11 @@ def _gen_evals(r, env, n):
                                    "[('cm' in ayns.cfg), ('nonexistent' in ayns.cfg), bool(ayns.cfg)]", 'sorted(str(k_) for k_ in ayns.cfg)'])]
             else:
                 lines = g.program(max_stmts=r.choice([0, 1, 2, 4, 6]))
+                if r.random() < 0.05:
+                    # a string literal holding a character some text APIs treat as a line boundary (Python does not, inside a literal)
+                    ch = r.choice(['\x0c', '\x1c', '\x1d', '\x1e', '\x85', '\u2028', '\u2029', '\x0b'])
+                    lines = [f"sep_ = 'x{ch}y'"] + lines[:-1] + [f'[{lines[-1]}, sep_, len(sep_)]']
+                    g.features.add('odd_line_boundary_char')
             ev = {'key': key, 'kind': 'eval', 'lines': lines, 'features': sorted(g.features)}
             if r.random() < 0.06:
                 # the value is a one-shot iterator: it is the client who consumes it, after the build
@@ -259,6 +264,9 @@ def _gen_evals(r, env, n):
             body = g.fstring()
             if kind == 'fstr_bare' and r.random() < 0.5:
                 body += r.choice([' "quoted"', " it's", ' "a" and \'b\'', ' {cm["x"]}', " {cm['x']}"])
+            if kind in ('fstr', 'fstr_bare') and r.random() < 0.05:
+                body += ' ' + r.choice(['\x0c', '\x1c', '\x85', '\u2028', '\u2029']) + '|'
+                g.features.add('odd_line_boundary_char')
             if kind == 'fstr_implicit' and (': ' in body or ' #' in body or body.endswith(':')):
                 kind = 'fstr'    # not expressible as a plain YAML scalar
             ev = {'key': key, 'kind': kind, 'body': body, 'features': sorted(g.features)}
@@ -395,8 +403,10 @@ def _do_build(build, fs, rec, unique=None):
             # concurrent builds must not overwrite each other's file on the shared simulated disk
             fname = build['filename'] if unique is None else build['filename'].replace('.yaml', f'.build{unique}.yaml')
             fs.files[fname] = text
+            rec['fname_used'] = fname
             b.add_source(fname, raw_yaml=False)
         else:
+            rec['fname_used'] = build['filename']
             b.add_source(text, raw_yaml=True, filename=build['filename'])
         root = b.build()
         active = syms
@@ -415,9 +425,11 @@ def _do_build(build, fs, rec, unique=None):
             cfg = Config(root, eval_ctx=ctx_obj)
         rec['status'] = 'ok'
         vals = {}
+        rec['code_files'] = {}
         for ev in build['evals']:
             v = _locate(cfg, build, ev)
             if 'call_after' in ev:
+                rec['code_files'][ev['key']] = getattr(getattr(v, '__code__', None), 'co_filename', None)    # where the function says it was written
                 try:
                     v = v(ev['call_after'])    # after the build: the function resolves its free names now
                 except Exception as e:
@@ -550,6 +562,13 @@ def execute(sc):
             count(oc, 'build:' + got['status'] + ':ref_ok')
             if got['status'] != 'ok':
                 res['violations'].append(core.violation('eval.unexpected_error', f'build #{i}: Python evaluates the code fine ({exp["values"]!r}) but the build failed: {got["exc"]["type"]} chain={got["exc"]["all_types"]}: {got["exc"]["msg"]}\n{_doc_text(b)}'[:1800], type=got['exc']['all_types'][-1], history=hist, mode=mode))
+                break
+            others = {o.get('fname_used') or '<string>' for o in v['outs']} - {got.get('fname_used') or '<string>'}
+            stale = [(k, f) for k, f in (got.get('code_files') or {}).items() if f in others]
+            if stale:
+                count(pr, 'function_code_file_checked')
+                res['violations'].append(core.violation('eval.value', f'build #{i} ({hist} in history, {mode}): the function defined by node {stale[0][0]} (source file {got.get("fname_used")!r}) says it was written in {stale[0][1]!r}, '
+                                                        f'the source of another build of this process\n{_doc_text(b)}'[:1800], kind='code_file', history=hist, mode=mode))
                 break
             diff = [k for k in exp['values'] if got['values'].get(k) != exp['values'][k]]
             if diff:
